@@ -1,12 +1,15 @@
 package serial
 
 import (
-	"os"
 	"bytes"
 	"fmt"
 	"io"
+	"os"
+	"runtime"
 	"sync"
+	"sync/atomic"
 	"testing"
+	"time"
 
 	"github.com/WICG/webpackage/go/verifyield"
 	"pgregory.net/rapid"
@@ -374,6 +377,7 @@ type stask struct {
 	err       error
 	panicV    interface{}
 	yields    int
+	gid       uint64 // the task's own goroutine (others, started by the code under test, are never parked)
 }
 
 // TestInterleave: N caller tasks are real goroutines, but exactly one runs at
@@ -396,6 +400,23 @@ func TestInterleaveFine(t *testing.T) {
 }
 
 var curTask *stask // the task the scheduler is currently running (nil: none)
+
+// schedExpectedG is the number of goroutines the process has while every live task is
+// the harness's own; schedDegraded is set once a task was seen blocked. While neither
+// says otherwise, the goroutine calling a hook is the current task's (fast path); else
+// it is identified by its id, and goroutines the code under test started are let through.
+var (
+	schedExpectedG atomic.Int64
+	schedDegraded  atomic.Bool
+	schedByGid     map[uint64]*stask
+)
+
+func callerTask() *stask {
+	if !schedDegraded.Load() && int64(runtime.NumGoroutine()) == schedExpectedG.Load() {
+		return curTask
+	}
+	return schedByGid[core.Goid()]
+}
 
 func interleave(c *core.Ctx, fine bool) {
 	{
@@ -435,7 +456,7 @@ func interleave(c *core.Ctx, fine bool) {
 			if fine {
 				period = uint64(c.PickInt("yield.period", 1, 2, 5, 17, 60))
 				verifyield.Hook = func(site int) {
-					tk := curTask
+					tk := callerTask()
 					if tk == nil {
 						return
 					}
@@ -449,6 +470,9 @@ func interleave(c *core.Ctx, fine bool) {
 				}
 				defer func() { verifyield.Hook = nil }()
 			}
+			schedDegraded.Store(false)
+			baseG := int64(runtime.NumGoroutine())
+			schedExpectedG.Store(-1) // (until all tasks exist, callers are identified by goroutine id)
 			var tasks []*stask
 			ref := []int{}
 			for i := 0; i < ntasks; i++ {
@@ -460,16 +484,24 @@ func interleave(c *core.Ctx, fine bool) {
 				tasks = append(tasks, tk)
 				ref = append(ref, k)
 			}
+			var starts []chan struct{}
 			for _, tk := range tasks {
 				tk := tk
 				w := c.NewWriter(fmt.Sprintf("dst%d", tk.id), core.WriterPlan{FailAt: -1})
 				sw := core.Unwrap(w)
 				sw.OnCall = func() {
+					if callerTask() != tk {
+						return // a goroutine the code under test started itself: cannot be parked
+					}
 					tk.yields++
 					tk.yielded <- struct{}{}
 					<-tk.resume
 				}
+				started := make(chan struct{})
+				starts = append(starts, started)
 				go func() {
+					tk.gid = core.Goid()
+					close(started)
 					<-tk.resume
 					defer func() {
 						if r := recover(); r != nil {
@@ -482,16 +514,58 @@ func interleave(c *core.Ctx, fine bool) {
 					tk.err = tk.in.run(w)
 				}()
 			}
+			schedByGid = map[uint64]*stask{}
+			for i, st := range starts {
+				<-st
+				schedByGid[tasks[i].gid] = tasks[i]
+			}
 			var schedule []byte
+			var running []*stask // resumed, neither parked nor finished within core.StallAfter
+			collect := func(wait time.Duration) bool {
+				deadline := time.Now().Add(wait)
+				for {
+					for k := 0; k < len(running); k++ {
+						select {
+						case <-running[k].yielded:
+							running = append(running[:k], running[k+1:]...)
+							return true
+						default:
+						}
+					}
+					if wait == 0 || time.Now().After(deadline) {
+						return false
+					}
+					time.Sleep(2 * time.Millisecond)
+				}
+			}
 			for {
+				for collect(0) {
+				}
 				var runnable []*stask
+				alive := 0
 				for _, tk := range tasks {
-					if !tk.done {
+					if tk.done {
+						continue
+					}
+					alive++
+					blocked := false
+					for _, r := range running {
+						blocked = blocked || r == tk
+					}
+					if !blocked {
 						runnable = append(runnable, tk)
 					}
 				}
+				schedExpectedG.Store(baseG + int64(alive))
 				if len(runnable) == 0 {
-					break
+					if len(running) == 0 {
+						break
+					}
+					if !collect(core.DeadlockAfter) {
+						c.Event("scheduler: %d task(s) blocked, none parked", len(running))
+						c.Deadlock(running[0].in.name)
+					}
+					continue
 				}
 				tk := runnable[c.Pick("sched.next", len(runnable))]
 				if len(schedule) < 64 {
@@ -499,7 +573,17 @@ func interleave(c *core.Ctx, fine bool) {
 				}
 				curTask = tk
 				tk.resume <- struct{}{}
-				<-tk.yielded
+				select {
+				case <-tk.yielded:
+				case <-time.After(core.StallLimit()):
+					core.NoteStall()
+					// blocked on something a parked task holds, or waiting for goroutines of its own:
+					// let another task run beside it (the run is no longer a function of the seed alone)
+					schedDegraded.Store(true)
+					running = append(running, tk)
+					c.Event("scheduler: task %d (%s) is blocked; another task runs beside it", tk.id, tk.in.name)
+					c.Probe("scheduler: a resumed task blocked (lock held by a parked task, or waiting for its own goroutines)")
+				}
 				curTask = nil
 			}
 			if fine {
